@@ -111,7 +111,7 @@ def gen_times(rng, n, t0, mode):
 
 
 def make_source(rng, sid, n, t0, tz_min, mode=None, notation=None, codec=None,
-                chrono=True, ncont_max=2, cont_class=None, body_len=None, trailing_newline=None):
+                chrono=True, ncont_max=2, cont_class=None, body_len=None, trailing_newline=None, traces=0.0):
     mode = mode or rng.choice(["ties", "subsec", "subus", "spread", "dense"])
     if notation is None:
         notation = rng.choice(["iso_t_ns_off", "iso_space_ns"]) if mode == "subus" else rng.choice(
@@ -129,6 +129,11 @@ def make_source(rng, sid, n, t0, tz_min, mode=None, notation=None, codec=None,
             off = tz_min
         cc = cont_class or rng.choice(["ascii", "ascii", "bin", "nul", "utf8"])
         eol = b"\r\n" if rng.random() < 0.1 else b"\n"
+        if traces and rng.random() < traces:
+            # a stack-trace like message: tens of continuation lines, several kB in all (more than the printer's staging buffer)
+            msgs.append(gen.make_msg(rng, sid, i, t, notation, off, ncont=rng.randint(22, 60), cont_class="ascii", eol=eol, body_len=body_len,
+                                     cont_len=rng.choice([60, 100, 140])))
+            continue
         msgs.append(gen.make_msg(rng, sid, i, t, notation, off, ncont=rng.randint(0, ncont_max),
                                  cont_class=cc, eol=eol, body_len=body_len))
     if trailing_newline is None:
@@ -149,7 +154,7 @@ def aligned_log(rng, B, nmsgs, tz_min=0, notation=None, t0=None, first_inside=Tr
     offsets k*B-1, k*B, k*B+1, with lines of B-1, B, B+1, 2B+1, 3B+1 bytes mixed in.
     Returns (preamble_bytes, [Msg]). If first_inside, the first timestamped line
     ends inside block zero (and for B >= 8096 the first three messages are short)."""
-    notation = notation or rng.choice(["iso_space", "iso_t_us_off", "iso_space_ms_off", "compact"])
+    notation = notation or rng.choice(["iso_space", "iso_t_us_off", "iso_space_ms_off", "compact", "iso_t_us_off", "iso_t_ns_off", "iso_space_ns"])
     fn, zoned, digits = gen.NOTATIONS[notation]
     t = t0 if t0 is not None else gen.instant(2023, rng.randint(1, 12), rng.randint(1, 28), rng.randint(0, 23), rng.randint(0, 59), 0)
     pre = b""
@@ -165,14 +170,15 @@ def aligned_log(rng, B, nmsgs, tz_min=0, notation=None, t0=None, first_inside=Tr
         eol = b"\r\n" if rng.random() < crlf else b"\n"
         m0 = gen.make_msg(rng, 0, i, ti, notation, off, ncont=0, body_len=0, eol=eol)
         base = len(m0.data)            # head line with empty body
-        goal = rng.choice(["end-1", "end0", "end+1", "len", "long", "rand", "rand", "next_ts_at_boundary"])
+        goal = rng.choice(["end-1", "end0", "end+1", "len", "long", "rand", "rand", "next_ts_at_boundary", "next_ts_straddles", "next_ts_straddles"])
         early = first_inside and (i == 0 or (B >= 8096 and i < 3))
         if early:
             room = B - pos - base - 1
             body = rng.randint(0, max(0, min(room, 30))) if room > 0 else 0
-        elif goal in ("end-1", "end0", "end+1", "next_ts_at_boundary"):
+        elif goal in ("end-1", "end0", "end+1", "next_ts_at_boundary", "next_ts_straddles"):
             # choose body so that (pos + base + body) % B == r  (offset one past the newline)
-            r = {"end-1": B - 1, "end0": 0, "end+1": 1, "next_ts_at_boundary": 0}[goal] % B
+            # next_ts_straddles: a block edge falls k bytes into the next message's timestamp (date, time, fraction or zone)
+            r = {"end-1": B - 1, "end0": 0, "end+1": 1, "next_ts_at_boundary": 0, "next_ts_straddles": B - rng.randint(1, max(1, base - 8))}[goal] % B
             body = (r - (pos + base)) % B
             if long_lines and rng.random() < 0.15:
                 body += B * rng.randint(1, 2)
